@@ -76,12 +76,14 @@ bool unitsAreEquivalent(const ModelPtr &model, const VariablePtr &v1, const Vari
  * @param uExp Exponent of the current unit in its parent.
  * @param logMult Log multiplier.
  * @param direction Specify whether we want to increment (1) or decrement (-1).
+ * @param history The names of the units being investigated, used to stop at units that are defined in terms of themselves.
  */
 void updateBaseUnitCount(const ModelPtr &model,
                          std::map<std::string, double> &unitMap,
                          double &multiplier,
                          const std::string &uName,
-                         double uExp, double logMult, int direction);
+                         double uExp, double logMult, int direction,
+                         NameList &history);
 
 /**
  * @brief Validate the provided @p name is a valid CellML identifier.
@@ -2488,27 +2490,28 @@ bool unitsAreEquivalent(const ModelPtr &model,
 
     hints = "";
     multiplier = 0.0;
+    NameList history;
 
     std::string v1UnitsName = v1->units()->name();
     if (model->hasUnits(v1UnitsName)) {
         UnitsPtr u1 = Units::create();
         u1 = model->units(v1UnitsName);
-        updateBaseUnitCount(model, unitMap, multiplier, u1->name(), 1, 0, 1);
+        updateBaseUnitCount(model, unitMap, multiplier, u1->name(), 1, 0, 1, history);
     } else if (unitMap.find(v1UnitsName) != unitMap.end()) {
         unitMap.at(v1UnitsName) += 1.0;
     } else if (isStandardUnitName(v1UnitsName)) {
-        updateBaseUnitCount(model, unitMap, multiplier, v1UnitsName, 1, 0, 1);
+        updateBaseUnitCount(model, unitMap, multiplier, v1UnitsName, 1, 0, 1, history);
     }
 
     std::string v2UnitsName = v2->units()->name();
     if (model->hasUnits(v2UnitsName)) {
         UnitsPtr u2 = Units::create();
         u2 = model->units(v2UnitsName);
-        updateBaseUnitCount(model, unitMap, multiplier, u2->name(), 1, 0, -1);
+        updateBaseUnitCount(model, unitMap, multiplier, u2->name(), 1, 0, -1, history);
     } else if (unitMap.find(v2UnitsName) != unitMap.end()) {
         unitMap.at(v2UnitsName) -= 1.0;
     } else if (isStandardUnitName(v2UnitsName)) {
-        updateBaseUnitCount(model, unitMap, multiplier, v2UnitsName, 1, 0, -1);
+        updateBaseUnitCount(model, unitMap, multiplier, v2UnitsName, 1, 0, -1, history);
     }
 
     // Remove "dimensionless" from base unit testing.
@@ -2550,7 +2553,8 @@ void updateBaseUnitCount(const ModelPtr &model,
                          double &multiplier,
                          const std::string &uName,
                          double uExp, double logMult,
-                         int direction)
+                         int direction,
+                         NameList &history)
 {
     if (model->hasUnits(uName)) {
         UnitsPtr u = model->units(uName);
@@ -2567,11 +2571,15 @@ void updateBaseUnitCount(const ModelPtr &model,
             double exp;
             double mult;
             double expMult;
+            history.push_back(uName);
             for (size_t i = 0; i < u->unitCount(); ++i) {
                 u->unitAttributes(i, ref, pre, exp, expMult, id);
                 mult = std::log10(expMult);
                 if (!isStandardUnitName(ref)) {
-                    updateBaseUnitCount(model, unitMap, multiplier, ref, exp * uExp, logMult + mult * uExp + convertPrefixToInt(pre) * uExp, direction);
+                    // Cyclic units are reported when the units are validated, here they do not contribute anything.
+                    if (std::find(history.begin(), history.end(), ref) == history.end()) {
+                        updateBaseUnitCount(model, unitMap, multiplier, ref, exp * uExp, logMult + mult * uExp + convertPrefixToInt(pre) * uExp, direction, history);
+                    }
                 } else {
                     for (const auto &iter : standardUnitsList.at(ref)) {
                         unitMap.at(iter.first) += direction * (iter.second * exp * uExp);
@@ -2579,6 +2587,7 @@ void updateBaseUnitCount(const ModelPtr &model,
                     multiplier += direction * (logMult + (standardMultiplierList.at(ref) + mult + convertPrefixToInt(pre)) * exp);
                 }
             }
+            history.pop_back();
         }
     } else if (isStandardUnitName(uName)) {
         for (const auto &iter : standardUnitsList.at(uName)) {
